@@ -47,14 +47,14 @@ JOBS = min(NPROC, 4)
 MC_QUICK = dict(CWhich='{"rc", "ic", "db", "bb", "rg"}',
                 RcInitSize=2, RcGrow=1, RcMaxKey=4, RcMaxVal=2, DevRcNoRetry="FALSE",
                 IcGrow=1, IcCap=2, IcU16=3, IcMaxCount=3, IcSlackMax=0, IcModes="{0, 1, 2}", IcMaxN=2, IcInitSizes="{1}",
-                DbGrow=1, DbGrowThresh=2, DbInos="{1, 2}", DbBlks="{0, 5}", DbCnts="{0, 1}", DbInitSizes="{1}", DbMaxLen=3,
+                DbGrow=1, DbGrowThresh=2, DbInos="{1, 2}", DbBlks="{0, 8}", DbCnts="{0, 1}", DbInitSizes="{1}", DbMaxLen=3,
                 BbGrow=2, BbVals="{0, 1, 2, 3, 4, 5}", BbInitSizes="{1, 3}", RgMaxAddr=6)
 # thorough: one run per container with larger constants (the others idle at one initial state)
 MC_THOROUGH = [
     ("rc", dict(RcInitSize=3, RcGrow=2, RcMaxKey=6, RcMaxVal=2)),
     ("rc", dict(RcInitSize=2, RcGrow=1, RcMaxKey=5, RcMaxVal=3)),
     ("ic", dict(IcGrow=1, IcCap=3, IcU16=4, IcMaxCount=5, IcMaxN=3, IcInitSizes="{1, 2}")),
-    ("db", dict(DbInos="{1, 2}", DbBlks="{0, 5, 9}", DbCnts="{0, 1}", DbInitSizes="{1, 2}", DbMaxLen=4)),
+    ("db", dict(DbInos="{1, 2}", DbBlks="{0, 5, 8}", DbCnts="{0, 1}", DbInitSizes="{1, 2}", DbMaxLen=4)),
     ("bb", dict(BbGrow=2, BbVals="{0, 1, 2, 3, 4, 5, 6, 7, 8}", BbInitSizes="{1, 3}")),
     ("rg", dict(RgMaxAddr=10)),
 ]
@@ -191,7 +191,7 @@ def gen_ic_small(rng, mode=None):
     return L
 
 
-def gen_ic_boundary(rng):
+def gen_ic_boundary(rng, near=None):
     """size 0: the code's own estimate (directories + inodes / 50); fill the list exactly, then insert below / inside / above so
     that insert_icount_el has to grow it (estimate from the last inode number, at least + 100)"""
     mode = rng.choice([0, 1])
@@ -199,7 +199,8 @@ def gen_ic_boundary(rng):
     ndirs = rng.randint(0, 20)
     size = ndirs + n // 50
     L = ["reset ic %d 0 %d %d %d" % (mode, n, ndirs, rng.choice([1, 2]))]
-    span = rng.choice([n - 10, n // 2, 4 * size])        # where the list's inodes live decides the estimate
+    # where the list's inodes live decides the estimate: count * (num_inodes / last ino) exceeds size + 100 when they sit low
+    span = (4 * size if near else rng.choice([n - 10, n // 2])) if near is not None else rng.choice([n - 10, n // 2, 4 * size])
     fill = sorted(rng.sample(range(5, span, 2), size))
     if rng.random() < 0.5: rng.shuffle(fill)
     for k in fill:
@@ -307,7 +308,7 @@ def histories(tier, rng):
     H += [("rc", gen_rc_small(rng)) for _ in range(70 if q else 3000)]
     H += [("rc500", gen_rc_boundary(rng)) for _ in range(1 if q else 12)]
     H += [("ic", gen_ic_small(rng)) for _ in range(70 if q else 3000)]
-    H += [("icest", gen_ic_boundary(rng)) for _ in range(1 if q else 12)]
+    H += [("icest", gen_ic_boundary(rng, near=(i % 2 == 0))) for i in range(2 if q else 12)]
     H += [("db", gen_db(rng)) for _ in range(20 if q else 600)]
     H += [("db212", gen_db(rng, long=True)) for _ in range(1 if q else 12)]
     H += [("bb", gen_bb(rng)) for _ in range(40 if q else 1500)]
@@ -473,6 +474,11 @@ def validate(vd, ev, drv, H, work, tier):
         seen.add(key)
         vd.violation(key, "%s at call %d (%s) of a %s history: %s" % (what, k, behaviours[bi][k] if k < len(behaviours[bi]) else "", kinds[bi], line[:240]),
                      {"kind": "cont", "ops": behaviours[bi], "first_unmatched_line": k, "line": line[:2000], "tlc_tail": tail[-1500:]})
+    for want in ("rc", "ic", "db"):
+        for kind, ops, tl in zip(kinds, behaviours, tb):
+            if kind == want:
+                ev.sample({"containers": kind, "ops": ops[:10], "logged": [json.loads(x[:1500]) if len(x) < 1500 else x[:300] for x in tl[1:3]]}, maxn=8)
+                break
     nt = 0
     for kind, ops, tl in zip(kinds, behaviours, tb):
         if nontrivial(kind, tl[1:]):
